@@ -190,9 +190,6 @@ class QuotedSymbol(str):
             return True
         if content[0] in '()"#:' or content[0].isdigit() or ")" in content or "(" in content:
             return True
-        if content[0] in "+-." and len(content) > 1 and content[1].isdigit():
-            # pySMT reads -5 and .5 as numbers
-            return True
         return False
 
     RESERVED = frozenset(["(", ")", "!", "_", "as", "exists", "forall", "let", "par", "match"])
